@@ -241,3 +241,53 @@ def r_segflag(ctx):
     n = check_segmentation_flag(ctx, [ctx.body(n) for n in ['text::clean', 'text::word_boundaries', 'whitespace::remove', 'whitespace::full']], 'normal form')
     if n == 0:
         raise AnchorMissing('CharString::new sites of the normal form code')
+
+
+def charstring_primitive(ctx):
+    """the shared segmentation primitive CharString::new: exactly two ways to segment, chosen by the flag alone, lengths kept at
+    full width (shared by the properties that are stated over characters / grapheme clusters)"""
+    from analysis.alts import expand, flatten
+    from rules.common import narrowing_casts, closures_in
+    b = ctx.body('unicode::CharString::new')
+    rle = [t for t in b.calls(r'run_length_encode$')]
+    if len(rle) != 1:
+        raise AnchorMissing('run_length_encode(&cluster_lengths) in CharString::new')
+    al = flatten(expand(ctx.facts, b, nosite(sym(b, rle[0].args[0]))))
+    table = {}
+    extra = []
+    for a in al:
+        flag = [pol for tt, pol in a.atoms if match(core(tt), ('arg', 2, ANY))]
+        other = [tt for tt, pol in a.atoms if not match(core(tt), ('arg', 2, ANY))] + [tt for tt, n in a.variants]
+        v = core(a.value)
+        if other or len(flag) != 1:
+            extra.append(a)
+            continue
+        table[flag[0]] = v
+    ctx.require(not extra and set(table) == {True, False}, b, 'two-segmentations', 'CharString::new segments in exactly two ways, selected by use_graphemes alone',
+                'CharString::new has a segmentation path selected by something else than the flag (%s): e.g. an ASCII fast path counts "\\r\\n" as two characters in '
+                'grapheme mode' % [repr(x)[:100] for x in extra][:2], rle[0].span)
+    if set(table) == {True, False}:
+        okg = has(table[True], Call('graphemes', ('arg', 1, ANY), Const(1))) and has(table[True], ('fn', Pred(lambda n: n.endswith('str::len'))))
+        okc = has(table[False], Call('str::chars', ('arg', 1, ANY))) and has(table[False], ('fn', Pred(lambda n: n.endswith('len_utf8'))))
+        ctx.require(okg, b, 'grapheme-lengths', 'grapheme mode: byte lengths of str.graphemes(true)', 'grapheme mode: %s' % show_in(b, table[True])[:100])
+        ctx.require(okc, b, 'codepoint-lengths', 'code point mode: len_utf8 of str.chars()', 'code point mode: %s' % show_in(b, table[False])[:100])
+    n = 0
+    for fn in ('unicode::CharString::new', 'unicode::CharString::byte_start_end', 'unicode::CharString::get_char_byte_lengths', 'utils::run_length_encode', 'utils::run_length_decode'):
+        x0 = ctx.body(fn)
+        for x in [x0] + closures_in(ctx, x0):
+            for s_, f_, t_ in narrowing_casts(x):
+                if s_.span['exp']:
+                    continue
+                n += 1
+                ctx.fail(x, 'narrowing|%s->%s' % (f_, t_), 'a cluster length / count is narrowed from %s to %s at line %d of %s: a grapheme cluster of 256 bytes or more wraps and every later '
+                         'character starts at the wrong byte' % (f_, t_, s_.span['line'], fn), s_.span)
+    adt = ctx.facts.adts.get('unicode::CharString')
+    tys = [fl['ty'] for v in (adt['variants'] if adt else ()) for fl in v['fields'] if fl['name'] == 'rle_cluster_lengths']
+    ctx.require(bool(tys) and '(usize, usize)' in tys[0], b, 'length-width', 'cluster lengths are stored as usize', 'cluster lengths are stored as %s' % tys)
+
+
+@rule('C11', 'R-C11-6', 'T15 TYPE / T4 (the segmentation primitive)',
+      'CharString::new segments the text by graphemes(true) when use_graphemes is set and by chars() otherwise -- no third path '
+      '(no ASCII shortcut: "\\r\\n" is one cluster) -- and byte lengths are never narrowed')
+def r6(ctx):
+    charstring_primitive(ctx)
